@@ -7,7 +7,7 @@
    untouched (frame), and adds only justified answers.  By induction this covers every sequence of events:
    HInv holds initially (empty heaps) and Add with a fresh id preserves it (C11_add). *)
 From Coq Require Import Permutation.
-From Verif Require Import Model.Bytes Model.Heap Model.Queue Proofs.HeapFacts Proofs.QueueFacts Proofs.HeapOrder Proofs.QueueOrder.
+From Verif Require Import Model.Bytes Model.Heap Model.Queue Proofs.HeapFacts Proofs.QueueFacts Proofs.HeapOrder Proofs.QueueOrder Proofs.QueueGlobal.
 
 (* a notification: never blocks; releases/errs only the waiters it should; one answer each *)
 Theorem C11_notify_never_blocks : forall (canc : nat -> bool) (rev : N) (fuel : nat) (h : list item) cs ans,
@@ -84,6 +84,36 @@ Theorem C11_released_as_soon_as_notified : forall (s : qstate) (t rev : N) (s' :
   forall x, In x (hget (heaps s') t) -> rev < it_rev x.
 Proof. exact notify_prompt. Qed.
 Print Assumptions C11_released_as_soon_as_notified.
+
+
+(* ---- the whole event loop over the whole table map ----
+   GInv s: the table keys are distinct and ALL queued waiters of ALL tables together satisfy HInv.  One event handled
+   from a GInv state completes (never Blocked, never Panicked), re-establishes GInv and introduces no waiter id other
+   than the one an Add brings. *)
+Theorem C11_event_never_blocks : forall (s : qstate) (e : event), GInv s -> fresh_event s e ->
+  exists s' r, step s e = (Fine, s', r) /\ GInv s' /\
+    (forall j, In j (known s') -> In j (known s) \/ is_add e j).
+Proof. exact step_never_blocks. Qed.
+Print Assumptions C11_event_never_blocks.
+
+(* the node never wedges: EVERY sequence of events (adds to any tables with any revisions, cancellations,
+   notifications, sweeps, caller reads, length queries) whose Add ids are new and pairwise distinct is handled to the
+   end from the initial state - no send on a full channel, no Peek/Pop of an empty heap, no double close *)
+Theorem C11_loop_never_wedges : forall (es : list event) (s : qstate), GInv s -> NoDup (adds es) ->
+  (forall j, In j (adds es) -> ~ In j (known s)) ->
+  fst (run s es) = repeat Fine (length es) /\ GInv (snd (run s es)).
+Proof. exact run_never_blocks. Qed.
+Theorem C11_initial_state_good : GInv q0.
+Proof. exact GInv0. Qed.
+Print Assumptions C11_loop_never_wedges.
+
+(* at most one answer per waiter, and an answered waiter is queued nowhere, in every reachable state *)
+Theorem C11_answers_at_most_once : forall (es : list event) (s : qstate), GInv s -> NoDup (adds es) ->
+  (forall j, In j (adds es) -> ~ In j (known s)) ->
+  NoDup (ans_ids (answers (snd (run s es)))) /\
+  forall x, In x (all_items (heaps (snd (run s es)))) -> ~ In (it_id x) (ans_ids (answers (snd (run s es)))).
+Proof. exact run_answers_once. Qed.
+Print Assumptions C11_answers_at_most_once.
 
 Example C11_example :
   let evs := [EAdd 1 1 1; EAdd 2 1 2; EAdd 3 1 3; EAdd 4 1 4; EAdd 5 1 5; EAdd 6 1 6; EAdd 7 1 7; ECancel 4;
